@@ -563,6 +563,31 @@ class Interp:
             elif op_ == 'add': ov = z3.And((X < 0) == (Y < 0), (r < 0) != (X < 0))
             else: ov = z3.And((X < 0) != (Y < 0), (r < 0) != (X < 0))
             return [r, ov]
+        m_ = re.match(r'@llvm\.x86\.(addcarry|subborrow)\.(32|64)$', name)
+        if m_:
+            # _addcarry_u64 / _subborrow_u64: {i8 carry-out, iN result} of a + b + cin (resp. a - b - cin); cin is used as "non-zero"
+            wd = int(m_.group(2)); cin, x, y = a
+            if isinstance(x, (FV, Half)) or isinstance(y, (FV, Half)): raise FieldWordOp('%s on a field word' % name)
+            if is_c(cin) and is_c(x) and is_c(y):
+                e = x + y + (1 if cin else 0) if m_.group(1) == 'addcarry' else x - y - (1 if cin else 0)
+                return [int(not (0 <= e <= mask(wd))), e & mask(wd)]
+            C = z3.If(tobv(cin, 8) != 0, z3.BitVecVal(1, wd + 1), z3.BitVecVal(0, wd + 1)); X = z3.ZeroExt(1, tobv(x, wd)); Y = z3.ZeroExt(1, tobv(y, wd))
+            e = (X + Y + C) if m_.group(1) == 'addcarry' else (X - Y - C)
+            return [z3.ZeroExt(7, z3.Extract(wd, wd, e)), z3.Extract(wd - 1, 0, e)]
+        m_ = re.match(r'@llvm\.u(add|sub)\.sat\.i(\d+)$', name)
+        if m_ and not isinstance(a[0], list):
+            wd = int(m_.group(2)); x, y = a
+            if isinstance(x, (FV, Half)) or isinstance(y, (FV, Half)): raise FieldWordOp('%s on a field word' % name)
+            if is_c(x) and is_c(y): return min(x + y, mask(wd)) if m_.group(1) == 'add' else max(x - y, 0)
+            X = tobv(x, wd); Y = tobv(y, wd)
+            if m_.group(1) == 'add': return z3.If(z3.ULT(X + Y, X), z3.BitVecVal(mask(wd), wd), X + Y)
+            return z3.If(z3.ULT(X, Y), z3.BitVecVal(0, wd), X - Y)
+        m_ = re.match(r'@llvm\.abs\.i(\d+)$', name)
+        if m_ and not isinstance(a[0], list):
+            wd = int(m_.group(1)); x = a[0]
+            if isinstance(x, (FV, Half)): raise FieldWordOp('%s on a field word' % name)
+            if is_c(x): return ((1 << wd) - x) & mask(wd) if x >> (wd - 1) else x
+            X = tobv(x, wd); return z3.If(X < 0, -X, X)
         m_ = re.match(r'@llvm\.x86\.(?:avx|avx2|sse41)\.(?:blendv\.p[ds]|pblendvb)', name)
         if m_:
             # lane i of the result is y[i] if the top bit of mask lane i is set, else x[i] (lane words keep their integer bits through the fp bitcasts)
